@@ -348,6 +348,47 @@ def SortedDedupOrderedStatement : Prop :=
   ∀ (desc : Bool) (items : List (Nat × Doc × Option String)),
     List.Pairwise (fun a b => svBefore desc b.sorted a.sorted = false) (sortedDedup desc items)
 
+/-! ## 4b. Merkle leaf names -/
+
+theorem splitFirst_append {g : List Byte} (hg : leafSep ∉ g) (rest : List Byte) :
+    splitFirst (g ++ leafSep :: rest) = some (g, rest) := by
+  induction g with
+  | nil => simp [splitFirst]
+  | cons c cs ih =>
+    have hc : c ≠ leafSep := fun e => hg (by simp [e])
+    have hcs : leafSep ∉ cs := fun h => hg (by simp [h])
+    simp [splitFirst, hc, ih hcs]
+
+/-- `leafEntity_roundtrip`: for a group and a name without the separator `/`, and ANY id (separators anywhere,
+    repeated, leading, trailing, empty), the Merkle leaf name parses back to the three components. -/
+theorem leafEntity_roundtrip (g n id : List Byte) (hg : leafSep ∉ g) (hn : leafSep ∉ n) :
+    parseLeaf (buildLeaf g n id) = some (g, n, id) := by
+  have e : buildLeaf g n id = g ++ leafSep :: (n ++ leafSep :: id) := by simp [buildLeaf]
+  simp only [parseLeaf, e, splitFirst_append hg, splitFirst_append hn]
+
+/-- leaf names identify properties. -/
+theorem leafEntity_injective (g n id g' n' id' : List Byte) (hg : leafSep ∉ g) (hn : leafSep ∉ n)
+    (hg' : leafSep ∉ g') (hn' : leafSep ∉ n') (h : buildLeaf g n id = buildLeaf g' n' id') :
+    g = g' ∧ n = n' ∧ id = id' := by
+  have a := leafEntity_roundtrip g n id hg hn
+  rw [h, leafEntity_roundtrip g' n' id' hg' hn'] at a
+  simp at a
+  exact ⟨a.1.symm, a.2.1.symm, a.2.2.symm⟩
+
+example : parseLeaf (buildLeaf [103, 48] [112, 48] [47, 97, 47, 47, 98, 47]) = some ([103, 48], [112, 48], [47, 97, 47, 47, 98, 47]) := by
+  decide
+
+/-- a parse that splits at EVERY separator and demands three parts loses every id that contains one
+    (`svc/instance-1`): the property of such a leaf can never be loaded by gossip. -/
+theorem leafEntity_splitAll_fails :
+    parseLeafSplitAll (buildLeaf [103] [112] [115, 47, 105]) = none ∧
+    parseLeaf (buildLeaf [103] [112] [115, 47, 105]) = some ([103], [112], [115, 47, 105]) := by decide
+
+/-- without the hypothesis the leaf name is ambiguous: name `a/b` with id `x` and name `a` with id `b/x`. -/
+theorem leafEntity_ambiguous_name :
+    buildLeaf [103] [97, 47, 98] [120] = buildLeaf [103] [97] [98, 47, 120] := by decide
+
+
 /-! ## 5. the code at the pinned commit (finding F18a) -/
 
 /-- `shard.repair` as written at the pinned commit (`==` instead of `>=`): a replica that missed a deletion
